@@ -70,7 +70,11 @@ fn classify_error(msg: &str) -> &'static str {
         || first.contains("unbounded ranges can't be used as iterators")
     {
         "E:type"
-    } else if first.contains("index out of bounds") || first.contains("negative indices aren't allowed") || first.contains("invalid index") {
+    } else if first.contains("index out of bounds")
+        || first.contains("negative indices aren't allowed")
+        || first.contains("invalid index")
+        || first.contains("the key is already in use by the entry at index")
+    {
         "E:index"
     } else if first.contains("execution timed out") {
         "E:timeout"
@@ -654,6 +658,224 @@ fn k4(cx: &mut Ctx, rng: &mut Rng, n_random: usize) {
 
 // ------------------------------------------------------------------------------------------------
 
+
+// ------------------------------------------------------------------------------------------------
+// structured families
+
+fn lit_str(s: &str) -> Expr {
+    Expr::Lit(Lit::Str(s.to_string()))
+}
+fn rng_e(a: i64, c: i64, incl: bool) -> Expr {
+    Expr::Range(b(int(a)), b(int(c)), incl)
+}
+
+fn structured_families(thorough: bool) -> Vec<(&'static str, Expr)> {
+    let mut out: Vec<(&'static str, Expr)> = vec![];
+    let keys = ["ka", "kb", "kc", "kd", "ke", "kf", "kg", "kh"];
+
+    // ---- map-position --------------------------------------------------------------------
+    for n in 0..=8usize {
+        let map = Expr::Map((0..n).map(|i| (keys[i].to_string(), int(i as i64 + 1))).collect());
+        let len = n as i64;
+        let mut idxs: Vec<Expr> = vec![];
+        for i in [0, 1, len / 2, len - 2, len - 1, -1, len, len + 3] {
+            let e = int(i);
+            if !idxs.contains(&e) {
+                idxs.push(e);
+            }
+        }
+        idxs.push(Expr::Lit(Lit::Float(1.5)));
+        for idx in &idxs {
+            let at = match idx {
+                Expr::Lit(Lit::Int(i)) => *i,
+                _ => 1,
+            };
+            let mut entries: Vec<Expr> = vec![Expr::Tuple(vec![lit_str("kx"), int(90)])];
+            if at >= 0 && (at as usize) < n {
+                entries.push(Expr::Tuple(vec![lit_str(keys[at as usize]), int(91)]));
+            }
+            if n >= 2 {
+                entries.push(Expr::Tuple(vec![lit_str(keys[0]), int(92)]));
+                entries.push(Expr::Tuple(vec![lit_str(keys[n - 1]), int(93)]));
+            }
+            entries.push(int(5));
+            entries.push(Expr::Tuple(vec![lit_str("kx"), int(1), int(2)]));
+            for entry in entries {
+                // value of the assignment, whole ordered map, positional reads, iteration order
+                let mut stmts = vec![
+                    Expr::Assign(0, b(map.clone())),
+                    Expr::Emit(b(Expr::IndexAssign(0, b(idx.clone()), b(entry)))),
+                    Expr::Emit(b(Expr::Var(0))),
+                ];
+                if n >= 1 {
+                    stmts.push(Expr::Emit(b(Expr::Index(b(Expr::Var(0)), b(int(len - 1))))));
+                    stmts.push(Expr::Emit(b(Expr::Index(b(Expr::Var(0)), b(int(len / 2))))));
+                }
+                stmts.push(Expr::For(1, b(Expr::Var(0)), b(Expr::Emit(b(Expr::Var(1))))));
+                stmts.push(Expr::Arith(ArithOp::Add, b(Expr::Var(0)), b(Expr::Map(vec![("kz".into(), int(0))]))));
+                out.push(("map-position", Expr::Block(stmts)));
+            }
+        }
+    }
+
+    // ---- list-position / position-read -----------------------------------------------------
+    let grid = |len: i64| -> Vec<i64> {
+        let mut g = vec![];
+        for i in [-1, 0, 1, 2, len - 1, len, len + 2] {
+            if !g.contains(&i) {
+                g.push(i);
+            }
+        }
+        g
+    };
+    let range_indices = |len: i64| -> Vec<Expr> {
+        let g = grid(len);
+        let mut v = vec![Expr::RangeFull];
+        for a in &g {
+            v.push(Expr::RangeFrom(b(int(*a))));
+            v.push(Expr::RangeTo(b(int(*a)), false));
+            v.push(Expr::RangeTo(b(int(*a)), true));
+            for c in &g {
+                v.push(rng_e(*a, *c, false));
+                v.push(rng_e(*a, *c, true));
+            }
+        }
+        v
+    };
+    for n in 0..=5i64 {
+        let list = Expr::List((0..n).map(|i| int(10 + i)).collect());
+        let mut idx: Vec<Expr> = grid(n).into_iter().map(int).collect();
+        idx.push(Expr::Lit(Lit::Float(0.5)));
+        idx.extend(range_indices(n));
+        for i in &idx {
+            out.push((
+                "list-position",
+                Expr::Block(vec![
+                    Expr::Assign(0, b(list.clone())),
+                    Expr::Emit(b(Expr::IndexAssign(0, b(i.clone()), b(lit_str("w"))))),
+                    Expr::Var(0),
+                ]),
+            ));
+        }
+    }
+    for n in 0..=4i64 {
+        let list = Expr::List((0..n).map(|i| int(10 + i)).collect());
+        let tuple = if n == 0 { None } else { Some(Expr::Tuple((0..n).map(|i| int(20 + i)).collect())) };
+        let string = lit_str(&"abcdefgh"[..n as usize]);
+        let map = Expr::Map((0..n as usize).map(|i| (keys[i].to_string(), int(i as i64))).collect());
+        let range = rng_e(100, 100 + n, false);
+        let mut idx: Vec<Expr> = grid(n).into_iter().map(int).collect();
+        idx.extend(range_indices(n));
+        for c in [Some(list), tuple, Some(string), Some(map), Some(range)].into_iter().flatten() {
+            for i in &idx {
+                out.push(("position-read", Expr::Index(b(c.clone()), b(i.clone()))));
+            }
+        }
+    }
+
+    // ---- range-representation --------------------------------------------------------------
+    let mut pool: Vec<i64> = vec![
+        0, 1, -1, 3, 2147483646, 2147483647, 2147483648, 2147483649, -2147483647, -2147483648, -2147483649, -2147483650, 4294967296,
+        9223372036854775800, -9223372036854775800,
+    ];
+    if thorough {
+        pool.extend([2147483645, -2147483646, 4294967295, -4294967297, 1099511627776]);
+    }
+    for a in &pool {
+        for d in [-2i64, -1, 0, 1, 2, 3] {
+            for incl in [false, true] {
+                let r = rng_e(*a, a + d, incl);
+                // iteration: every item is emitted; the loop's value and the loop variable afterwards
+                out.push((
+                    "range-representation",
+                    Expr::Block(vec![Expr::For(0, b(r.clone()), b(Expr::Emit(b(Expr::Var(0))))), Expr::Var(0)]),
+                ));
+                // iteration that stops early
+                out.push((
+                    "range-representation",
+                    Expr::Block(vec![
+                        Expr::Assign(1, b(int(0))),
+                        Expr::Assign(
+                            2,
+                            b(Expr::For(
+                                0,
+                                b(r.clone()),
+                                b(Expr::Block(vec![
+                                    Expr::OpAssign(ArithOp::Add, 1, b(int(1))),
+                                    Expr::If(b(Expr::Cmp(b(Expr::Var(1)), vec![(CmpOp::Ge, int(2))])), b(Expr::Break(Some(b(Expr::Var(0))))), None),
+                                    Expr::Var(0),
+                                ])),
+                            )),
+                        ),
+                        Expr::Tuple(vec![Expr::Var(1), Expr::Var(2)]),
+                    ]),
+                ));
+                out.push(("range-representation", Expr::Size(b(r.clone()))));
+                out.push(("range-representation", Expr::Emit(b(r.clone()))));
+                for k in [0i64, 1, d.max(0), d.max(0) + 1] {
+                    out.push(("range-representation", Expr::Index(b(r.clone()), b(int(k)))));
+                }
+                // a range with such bounds as a slice of a short list, and as an index-assignment target
+                out.push(("range-representation", Expr::Index(b(Expr::List(vec![int(1), int(2), int(3)])), b(r.clone()))));
+                out.push((
+                    "range-representation",
+                    Expr::Block(vec![
+                        Expr::Assign(0, b(Expr::List(vec![int(1), int(2), int(3)]))),
+                        Expr::IndexAssign(0, b(r.clone()), b(int(0))),
+                        Expr::Var(0),
+                    ]),
+                ));
+                out.push(("range-representation", Expr::Cmp(b(r.clone()), vec![(CmpOp::Eq, rng_e(*a, a + d, !incl))])));
+            }
+        }
+        // open ranges over a short string / tuple
+        out.push(("range-representation", Expr::Index(b(lit_str("abc")), b(Expr::RangeFrom(b(int(*a)))))));
+        out.push(("range-representation", Expr::Index(b(Expr::Tuple(vec![int(1), int(2)])), b(Expr::RangeTo(b(int(*a)), true)))));
+    }
+
+    // ---- jump-in-literal -----------------------------------------------------------------
+    // break / continue inside container literals and interpolations within loops
+    for at in 0..=3i64 {
+        for jump in 0..3 {
+            let j = || match jump {
+                0 => Expr::Break(None),
+                1 => Expr::Break(Some(b(Expr::Arith(ArithOp::Add, b(Expr::Var(2)), b(int(70)))))),
+                _ => Expr::Continue,
+            };
+            let cond = || Expr::Cmp(b(Expr::Var(2)), vec![(CmpOp::Eq, int(at))]);
+            let jump_e = || Expr::If(b(cond()), b(j()), None);
+            let shapes: Vec<Expr> = vec![
+                Expr::List(vec![Expr::Emit(b(Expr::Var(2))), jump_e(), Expr::Emit(b(int(9)))]),
+                Expr::Tuple(vec![Expr::Emit(b(Expr::Var(2))), jump_e(), Expr::Emit(b(int(9)))]),
+                Expr::Map(vec![("ka".into(), Expr::Emit(b(Expr::Var(2)))), ("kb".into(), jump_e()), ("kc".into(), Expr::Emit(b(int(9))))]),
+                Expr::Interp(vec![lit_str("a"), Expr::Emit(b(Expr::Var(2))), lit_str("b"), jump_e(), Expr::Emit(b(int(9)))]),
+                Expr::List(vec![int(1), Expr::List(vec![Expr::Emit(b(Expr::Var(2))), Expr::Tuple(vec![jump_e(), int(3)])]), Expr::Emit(b(int(4)))]),
+                Expr::Arith(ArithOp::Add, b(Expr::List(vec![Expr::Emit(b(Expr::Var(2)))])), b(Expr::List(vec![jump_e(), Expr::Emit(b(int(9)))]))),
+            ];
+            for sh in shapes {
+                for looped in 0..2 {
+                    let held = Expr::List(vec![sh.clone()]);
+                    let body = Expr::Block(vec![Expr::Assign(3, b(held.clone())), Expr::Emit(b(Expr::Var(3))), Expr::Var(2)]);
+                    let lp = if looped == 0 {
+                        Expr::For(2, b(rng_e(0, 3, false)), b(body))
+                    } else {
+                        // while with a counter
+                        Expr::While(
+                            b(Expr::Cmp(b(Expr::Var(2)), vec![(CmpOp::Lt, int(3))])),
+                            b(Expr::Block(vec![Expr::OpAssign(ArithOp::Add, 2, b(int(1))), Expr::Assign(3, b(held.clone())), Expr::Emit(b(Expr::Var(3))), Expr::Var(2)])),
+                        )
+                    };
+                    out.push((
+                        "jump-in-literal",
+                        Expr::Block(vec![Expr::Assign(2, b(int(-1))), Expr::Assign(3, b(int(0))), Expr::Assign(1, b(lp)), Expr::Tuple(vec![Expr::Var(1), Expr::Var(3)])]),
+                    ));
+                }
+            }
+        }
+    }
+    out
+}
+
 fn replay_detail(cx: &mut Ctx, d: &serde_json::Value, label: &str) -> bool {
     let src = d["source"].as_str().unwrap_or("");
     let req = d["request"].as_str().unwrap_or("");
@@ -949,6 +1171,34 @@ fn main() {
                                  else { "table program: every N in 120..=135, 4 × N in 16370..=16400; generated: N around 2^7 for each, around 2^14 for every 6th" },
                    "programs": jobs.len(), "runs": runs}),
         );
+    }
+
+    // 3c. structured families (bounded-exhaustive, built directly as ASTs): positional container
+    //     operations and ranges in both of KRange's representations
+    {
+        let progs = structured_families(thorough);
+        cx.rep.extra.insert(
+            "structured_families".into(),
+            json!({"programs": progs.len(), "contexts": ["top", "function"],
+                   "families": ["map-position: maps of 0..8 entries × index {first, second, middle, last-1, last, -1, len, len+3, fractional} × new entry {new key, same key at that position, key of another entry (first / last), not a tuple, 3-tuple}; observed: value of the assignment, the whole ordered map, positional reads, iteration order",
+                                "list-position: lists of 0..5 elements × number and range index assignment over the grid {-1,0,1,2,len-1,len,len+2}² (inclusive/exclusive, open ends)",
+                                "position-read: list / tuple / string / map / range indexing and slicing over the same grids",
+                                "range-representation: bounds around 0, ±2^31 and large i64 (both KRange representations), inclusive/exclusive, ascending/descending/empty/single: for (with and without break), size, indexing, slicing a list by the range, the range value itself",
+                                "jump-in-literal: break / break value / continue inside list, tuple, map and interpolated-string literals within loops"]}),
+        );
+        let ctxs = [Context::Top, Context::Function];
+        for chunk in progs.chunks(2000) {
+            let reqs: Vec<String> = chunk.iter().map(|(_, p)| request(p)).collect();
+            let resps = cx.drv.batch(&reqs);
+            for ((fam, p), resp) in chunk.iter().zip(resps.iter()) {
+                if let Some(id) = envelope::known_shape(p, true) {
+                    cx.rep.bump(&format!("family_program_of_known_shape={}", id));
+                    continue;
+                }
+                cx.rep.bump(&format!("origin=family:{}", fam));
+                cx.check_program(p, resp, &ctxs, 0, fam);
+            }
+        }
     }
 
     // 4. exhaustive small operator trees (operands observable through emit)
